@@ -288,6 +288,10 @@ def family(name, rng, sid):
         sc = gen_base(rng, sid, "tail", tail=True, clients=1, pop=rng.random() < 0.2)
         sc["sched"]["tickw"] = 1
         sc["sched"]["bias"] = ["ls:tick"]
+        if rng.random() < 0.5:
+            # oldest gate first, time passes only when nothing else can move: the last lines are then written
+            # after the last periodic frame and only the final render can carry them
+            sc["sched"]["mode"] = "fair"
         return sc
     if name == "pop":
         return gen_base(rng, sid, "pop", pop=True, n=rng.randint(2, 4))
